@@ -379,7 +379,7 @@ func runJoined(p *core.Program, r *core.Report, rule string) {
 			idx++
 			outer := core.Outer(fn)
 			fk := core.FnKey(outer)
-			cf, _ := closureOf(g.Call.Value)
+			cf := workerOf(g)
 			construct := fk + " go#" + itoa(idx)
 			if fn.Parent() != nil {
 				construct = fk + " go in closure"
@@ -468,7 +468,17 @@ func runJoined(p *core.Program, r *core.Report, rule string) {
 				r.Audit(rule, construct, p.InsPos(ins), why)
 				return
 			}
-			if fk == "(*eval.pipelineOp).exec" && cf != nil && cf.Parent() == outer && signals["wg"] == false {
+			// a goroutine that itself waits for the WaitGroup: the spawner has
+			// handed the join over (background pipeline)
+			selfWaits := false
+			if cf != nil {
+				core.Instrs(cf, func(x ssa.Instruction) {
+					if isWGCall(x, "Wait") {
+						selfWaits = true
+					}
+				})
+			}
+			if fk == "(*eval.pipelineOp).exec" && cf != nil && selfWaits && signals["wg"] == false {
 				r.Audit(rule, construct, p.InsPos(ins), joinedAudit["(*eval.pipelineOp).exec#bg"])
 				return
 			}
@@ -540,21 +550,13 @@ func runC20(p *core.Program, r *core.Report) {
 	runAcquireCheck(p, r, "ACQUIRE-CHECK")
 	for _, top := range []*ssa.Function{peach, rp} {
 		fk := core.FnKey(top)
-		// collect all functions of the builtin (closures included)
-		var all []*ssa.Function
-		var collect func(f *ssa.Function)
-		collect = func(f *ssa.Function) {
-			all = append(all, f)
-			for _, a := range f.AnonFuncs {
-				collect(a)
-			}
-		}
-		collect(top)
+		// collect all functions of the builtin (closures and workers included)
+		all := builtinFuncs(top)
 		var workers []*ssa.Function
 		for _, f := range all {
 			core.Instrs(f, func(ins ssa.Instruction) {
 				if g, ok := ins.(*ssa.Go); ok {
-					if cf, ok := closureOf(g.Call.Value); ok {
+					if cf := workerOf(g); cf != nil {
 						workers = append(workers, cf)
 					}
 					// Add precedes go: either a dominating Add(1) in the same function, or a bulk Add in the top function
@@ -643,20 +645,20 @@ func runC20(p *core.Program, r *core.Report) {
 
 	// RECHECK (peach): on every path to the go statement, the last read of `broken` is after the last Acquire
 	var perInput *ssa.Function
-	for _, a := range peach.AnonFuncs {
+	var peachWorkers []*ssa.Function
+	for _, a := range builtinFuncs(peach) {
 		core.Instrs(a, func(ins ssa.Instruction) {
-			if _, ok := ins.(*ssa.Go); ok {
+			if g, ok := ins.(*ssa.Go); ok {
 				perInput = a
+				if w := workerOf(g); w != nil {
+					peachWorkers = append(peachWorkers, w)
+				}
 			}
 		})
 	}
 	if r.Anchor("RECHECK", "per-input callback of peach containing the go statement", perInput != nil) {
-		isAcquire := func(x ssa.Instruction) bool {
-			return isCallTo(x, "(*golang.org/x/sync/semaphore.Weighted).Acquire")
-		}
-		isBrokenRead := func(x ssa.Instruction) bool {
-			return isCallTo(x, "sync/atomic.LoadInt32") || isAtomicLoadMethod(x)
-		}
+		isAcquire := func(x ssa.Instruction) bool { return isSemaCall(x, "Acquire") }
+		isBrokenRead := isFlagLoad
 		var acq ssa.Instruction
 		core.Instrs(perInput, func(ins ssa.Instruction) {
 			if isAcquire(ins) {
@@ -678,18 +680,13 @@ func runC20(p *core.Program, r *core.Report) {
 		// worker publishes its stop request BEFORE it frees its slot. In the
 		// worker goroutine no store to the flag is reachable from Release.
 		if acq != nil {
-			isFlagStore := func(x ssa.Instruction) bool {
-				return isCallTo(x, "sync/atomic.StoreInt32") || isCallTo(x, "sync/atomic.CompareAndSwapInt32") || isCallTo(x, "sync/atomic.AddInt32") || isAtomicStoreMethod(x)
-			}
-			isRelease := func(x ssa.Instruction) bool {
-				return isCallTo(x, "(*golang.org/x/sync/semaphore.Weighted).Release")
-			}
+			isRelease := func(x ssa.Instruction) bool { return isSemaCall(x, "Release") }
 			core.Instrs(perInput, func(ins ssa.Instruction) {
 				g, ok := ins.(*ssa.Go)
 				if !ok {
 					return
 				}
-				worker, _ := closureOf(g.Call.Value)
+				worker := workerOf(g)
 				if worker == nil {
 					return
 				}
@@ -745,7 +742,7 @@ func runC20(p *core.Program, r *core.Report) {
 			if succ != nil && len(succ.Instrs) > 0 {
 				isRelOrGo := func(x ssa.Instruction) bool {
 					_, isGo := x.(*ssa.Go)
-					return isGo || isCallTo(x, "(*golang.org/x/sync/semaphore.Weighted).Release")
+					return isGo || isSemaCall(x, "Release")
 				}
 				ok := true
 				var exit ssa.Instruction
@@ -761,8 +758,9 @@ func runC20(p *core.Program, r *core.Report) {
 		}
 	}
 	// SEMA-PAIR (b): worker releases exactly once on every path (when a semaphore exists)
-	for _, a := range peach.AnonFuncs {
-		for _, w := range a.AnonFuncs {
+	for _, a := range []int{0} {
+		_ = a
+		for _, w := range peachWorkers {
 			var rels []ssa.Instruction
 			core.Instrs(w, func(ins ssa.Instruction) {
 				if isCallTo(ins, "(*golang.org/x/sync/semaphore.Weighted).Release") {
@@ -823,15 +821,29 @@ func runC20(p *core.Program, r *core.Report) {
 	}
 
 	// ERR-AGG: stores to peach's shared err inside workers are under errMu; no unchecked assertion on callee errors
-	for _, a := range peach.AnonFuncs {
-		for _, w := range a.AnonFuncs {
+	for _, a := range []int{0} {
+		_ = a
+		for _, w := range peachWorkers {
 			core.Instrs(w, func(ins ssa.Instruction) {
 				st, ok := ins.(*ssa.Store)
 				if !ok {
 					return
 				}
-				fv, ok := st.Addr.(*ssa.FreeVar)
-				if !ok || !strings.HasSuffix(fv.Type().String(), "*error") {
+				// the shared error: a captured variable, or a field of the
+				// shared state struct
+				switch addr := st.Addr.(type) {
+				case *ssa.FreeVar:
+					if !strings.HasSuffix(addr.Type().String(), "*error") {
+						return
+					}
+				case *ssa.FieldAddr:
+					if addr.Type().String() != "*error" {
+						return
+					}
+					if _, isLocal := addr.X.(*ssa.Alloc); isLocal {
+						return
+					}
+				default:
 					return
 				}
 				// a Lock on a captured mutex must precede, with no Unlock in between (deferred unlock accepted)
@@ -859,8 +871,9 @@ func runC20(p *core.Program, r *core.Report) {
 		// loop, reject anything else
 		hasCAS, hasSwapStore := false, false
 		var where ssa.Instruction
-		for _, a := range peach.AnonFuncs {
-			for _, w := range a.AnonFuncs {
+		for _, a := range []int{0} {
+			_ = a
+			for _, w := range peachWorkers {
 				core.Instrs(w, func(ins ssa.Instruction) {
 					c, ok := ins.(ssa.CallInstruction)
 					if !ok {
